@@ -332,6 +332,32 @@ theorem nsi_newman_betweenness_split (G : Gr) (v : Nat) (p : Rat) (hv : v < G.n)
     nsiNewman (split G v p) T' ends a = nsiNewman G T ends (collapse G.n v a) :=
   nsiNewman_split_lemma G v p hv hp0 hp1 hw hloop T T' hT hT' ends a ha
 
+/-- **… with the matrix inverse as an assumed operation.**  `IsGroundedInv n M T`: `T` has a
+zero last row and column and its leading `(n−1) × (n−1)` block is a two-sided inverse of the
+leading block of `M` (`M_red · M_red⁻¹ = 1 = M_red⁻¹ · M_red`) — what `sp_M_inv[:-1,:-1] =
+inv(sp_M[:-1,:-1])` stores, *if* `inv` inverts.  For an undirected loop-free network with positive
+weights this alone gives the invariance, although the grounded node of the split copy is the new
+twin: `M T = 1 − e_g 1ᵀ` (columns of `sp_M` sum to zero) and `T M = 1 − (w/w_g) e_gᵀ`
+(`sp_M w = 0`), so `SolvesR` holds and `SolvesL` holds for every row orthogonal to `w`, as the
+rows `Q[s,·] − Q[t,·]` are. -/
+theorem nsi_newman_betweenness_split_grounded (G : Gr) (v : Nat) (p : Rat) (hv : v < G.n)
+    (hp0 : 0 < p) (hp1 : p < 1) (hw : ∀ k, k < G.n → 0 < G.w k) (hloop : ∀ i, G.adj i i = false)
+    (hsym : ∀ i j, G.adj i j = G.adj j i) (T T' : Nat → Nat → Rat)
+    (hT : IsGroundedInv G.n (newmanM G) T)
+    (hT' : IsGroundedInv (G.n + 1) (newmanM (split G v p)) T') (ends : Bool)
+    (a : Nat) (ha : a < G.n + 1) :
+    nsiNewman (split G v p) T' ends a = nsiNewman G T ends (collapse G.n v a) :=
+  nsiNewman_split_grounded G v p hv hp0 hp1 hw hloop hsym T T' hT hT' ends a ha
+
+/-- the two facts about a grounded inverse the previous theorem rests on -/
+theorem grounded_inverse_solves (G : Gr) (hn : 0 < G.n) (hw : ∀ k, k < G.n → 0 < G.w k)
+    (hsym : ∀ i j, G.adj i j = G.adj j i) (T : Nat → Nat → Rat)
+    (h : IsGroundedInv G.n (newmanM G) T) :
+    SolvesL G.n (nsiQ G) (newmanM G) T ∧ SolvesR G.n (newmanM G) T :=
+  ⟨grounded_solvesL_newman G hn hw T h,
+   grounded_solvesR G.n hn _ T h (fun j hj =>
+     newmanM_colsum G (fun k hk => ne_of_gt (hw k hk)) (aplus_symm G hsym) j hj)⟩
+
 /-- the executable checks the driver reports decide the two hypotheses -/
 theorem newman_hypotheses_decidable (n : Nat) (Q M T : Nat → Nat → Rat) :
     (solvesL n Q M T = true → SolvesL n Q M T) ∧ (solvesR n M T = true → SolvesR n M T) :=
@@ -361,6 +387,16 @@ example :
     nsiNewman (split path5 2 (1/4)) T' false 5 = 4/3 ∧
     nsiNewman (split path5 2 (1/4)) T' true 5 = nsiNewman path5 T true 2 := by
   decide +kernel
+
+/-- non-vacuity: the reduced inverses of the path 0–1–2–3–4 (weights 1, 2, 3, 1, 2) and of its
+split copy, written out, are grounded inverses in the sense of the theorem -/
+example :
+    IsGroundedInv 5 (newmanM path5) (padInv 5 fun i j =>
+      ([[3/2, 1, 5/6, 1/2], [2, 2, 5/3, 1], [5/2, 5/2, 5/2, 3/2], [1/2, 1/2, 1/2, 1/2]].getD i []).getD j 0) ∧
+    IsGroundedInv 6 (newmanM (split path5 2 (1/4))) (padInv 6 fun i j =>
+      ([[5/6, 1/3, 2/9, 1/6, 1/6], [2/3, 2/3, 4/9, 1/3, 1/3], [1/2, 1/2, 2/3, 1/2, 1/2],
+        [1/6, 1/6, 2/9, 1/2, 1/2], [1/3, 1/3, 4/9, 1, 2]].getD i []).getD j 0) :=
+  ⟨isGroundedInv_of_check _ _ _ (by decide +kernel), isGroundedInv_of_check _ _ _ (by decide +kernel)⟩
 
 /-! ### round 4 (c): Arenas-type random-walk betweenness
 
